@@ -309,16 +309,16 @@ Section Number.
   Notation sst := (scan_single_token xid_start xid_continue).
   Notation snt := (scan_number_tail).
 
-  Definition ret_ (depth : nat) (x : lres (option token * str)) : lres (option token * str * nat) :=
+  Definition ret_ (depth : list bool) (x : lres (option token * str)) : lres (option token * str * list bool) :=
     match x with
     | LOk (t, r) => LOk (t, r, depth)
     | LErr e => LErr e | LUnsupported => LUnsupported | LOutOfFuel => LOutOfFuel
     end.
 
-  Lemma dispatch_digit : forall d c r, is_ascii_digit c = true -> based_prefix (c :: r) = false ->
-    sst d (c :: r) = ret_ d (snt [c] r).
+  Lemma dispatch_digit : forall d la c r, is_ascii_digit c = true -> based_prefix (c :: r) = false ->
+    sst d la (c :: r) = ret_ d (snt [c] r).
   Proof.
-    intros d c r H B. digits c H; try reflexivity.
+    intros d la c r H B. digits c H; try reflexivity.
     destruct r as [|x y]; [reflexivity|]. cbn [based_prefix] in B.
     unfold scan_single_token. cbn [N.eqb Pos.eqb andb peek_is]. rewrite B. reflexivity.
   Qed.
@@ -358,11 +358,11 @@ Section Number.
   Qed.
 
   (* completeness: every literal of the grammar is one Number token *)
-  Theorem lex_number_complete : forall n rest d,
+  Theorem lex_number_complete : forall n rest d la,
     wf_num n = true -> num_stop rest = true -> based_prefix (pr_num n ++ rest) = false ->
-    sst d (pr_num n ++ rest) = LOk (Some (TNumber (pr_num n)), rest, d).
+    sst d la (pr_num n ++ rest) = LOk (Some (TNumber (pr_num n)), rest, d).
   Proof.
-    intros [i f x] rest d W S B. unfold wf_num in W. cbn [n_int n_frac n_exp] in W.
+    intros [i f x] rest d la W S B. unfold wf_num in W. cbn [n_int n_frac n_exp] in W.
     apply andb_prop in W. destruct W as [W Wx]. unfold pr_num in *. cbn [n_int n_frac n_exp] in *.
     destruct i as [|c ds1].
     - (* .234 *)
@@ -380,13 +380,13 @@ Section Number.
     - apply andb_prop in W. destruct W as [G Wf].
       assert (Hc : is_ascii_digit c = true).
       { unfold dgroup in G. apply andb_prop in G. destruct G as [G _]. apply andb_prop in G. tauto. }
-      cbn [app] in *. rewrite (dispatch_digit d c _ Hc B).
+      cbn [app] in *. rewrite (dispatch_digit d la c _ Hc B).
       rewrite <- app_assoc. rewrite <- app_assoc.
       rewrite (tail_ok c ds1 f x rest G Wf Wx S). cbn [ret_ app]. repeat repeat rewrite <- app_assoc. reflexivity.
   Qed.
 
   (* ---- the converse at the level of scan_single_token *)
-  Definition is_num_res (x : lres (option token * str * nat)) : bool :=
+  Definition is_num_res (x : lres (option token * str * list bool)) : bool :=
     match x with LOk (Some (TNumber _), _, _) => true | _ => false end.
 
   Lemma keyword_not_number : forall s, match keyword_of s with Some (TNumber _) => false | _ => true end = true.
@@ -405,10 +405,10 @@ Section Number.
     is_num_res (ret_ d (scan_based xid_continue base isd pre cs)) = false.
   Proof. intros. unfold scan_based. crush. Qed.
 
-  Lemma other_not_number : forall d c r, is_ascii_digit c = false -> (c =? 46) = false ->
-    is_num_res (sst d (c :: r)) = false.
+  Lemma other_not_number : forall d la c r, is_ascii_digit c = false -> (c =? 46) = false ->
+    is_num_res (sst d la (c :: r)) = false.
   Proof.
-    intros d c r H1 H2. unfold scan_single_token. rewrite H1, H2.
+    intros d la c r H1 H2. unfold scan_single_token. rewrite H1, H2.
     destruct (N.eqb_spec c 48) as [->|N48]; [discriminate H1|]. cbn [andb].
     repeat match goal with
            | |- is_num_res (if ?b then _ else _) = false => destruct b
@@ -418,10 +418,10 @@ Section Number.
            end; crush.
   Qed.
 
-  Lemma dispatch_based : forall d x r, (x =? 120) || (x =? 111) || (x =? 98) = true ->
-    is_num_res (sst d (48 :: x :: r)) = false.
+  Lemma dispatch_based : forall d la x r, (x =? 120) || (x =? 111) || (x =? 98) = true ->
+    is_num_res (sst d la (48 :: x :: r)) = false.
   Proof.
-    intros d x r H.
+    intros d la x r H.
     assert (C : x = 120 \/ x = 111 \/ x = 98).
     { apply orb_prop in H. destruct H as [H|H]; [apply orb_prop in H; destruct H as [H|H]|];
         apply N.eqb_eq in H; auto. }
@@ -432,18 +432,18 @@ Section Number.
   Qed.
 
   (* soundness: a Number token is always a literal of the grammar, and nothing else is consumed *)
-  Theorem lex_number_sound : forall d cs l r d',
-    sst d cs = LOk (Some (TNumber l), r, d') ->
+  Theorem lex_number_sound : forall d la cs l r d',
+    sst d la cs = LOk (Some (TNumber l), r, d') ->
     exists n, wf_num n = true /\ l = pr_num n /\ cs = l ++ r /\ d' = d.
   Proof.
-    intros d cs l r d' H. destruct cs as [|c r0]; [discriminate|].
+    intros d la cs l r d' H. destruct cs as [|c r0]; [discriminate|].
     destruct (is_ascii_digit c) eqn:Hc.
     - destruct (based_prefix (c :: r0)) eqn:B.
       + cbn [based_prefix] in B. destruct c as [|p]; [discriminate|].
         do 6 (destruct p as [p|p|]; try discriminate).
         destruct r0 as [|x r1]; [discriminate|].
-        pose proof (dispatch_based d x r1 B) as X. rewrite H in X. discriminate.
-      + rewrite (dispatch_digit d c r0 Hc B) in H.
+        pose proof (dispatch_based d la x r1 B) as X. rewrite H in X. discriminate.
+      + rewrite (dispatch_digit d la c r0 Hc B) in H.
         destruct (scan_number_tail [c] r0) as [[t r1]| | |] eqn:T; try discriminate.
         cbn [ret_] in H. inversion H; subst.
         destruct (tail_inv c r0 _ _ Hc T) as (n & Wn & En & Ec).
@@ -462,6 +462,6 @@ Section Number.
         exists (mk_num [] (Some ds) x). unfold wf_num, pr_num. cbn [n_int n_frac n_exp pr_frac app].
         rewrite (dgroup_of ds _ P2 P3 (P4 eq_refl) P6), Wx.
         repeat split; cbn [app]; repeat rewrite <- app_assoc; reflexivity.
-      + pose proof (other_not_number d c r0 Hc Hd) as X. rewrite H in X. discriminate.
+      + pose proof (other_not_number d la c r0 Hc Hd) as X. rewrite H in X. discriminate.
   Qed.
 End Number.
